@@ -50,9 +50,12 @@ TFill   == /\ Ev.a = "Fill" /\ Ev.res = "full" /\ Clean
                 ELSE Ev.k = 0 /\ Api = tree /\ Api2 = tree /\ tree' = tree      \* nothing to fill: nothing changes
            /\ out' = "full" /\ UNCHANGED total
 \* Churn: n temporary files outside the universe were created (until refusal) and removed again
+\* Hold: a read-write handle on an existing file is opened and kept across the following calls; nothing changes
+THold   == /\ Ev.a = "Hold" /\ Ev.res = "ok" /\ Clean /\ IsFile(Ev.p)
+           /\ Api = tree /\ Api2 = tree /\ UNCHANGED vars
 TChurn  == /\ Ev.a = "Churn" /\ Ev.res = "ok" /\ Clean
            /\ Api = tree /\ Api2 = tree /\ UNCHANGED vars
-Match == Ev.panic = "" /\ (TMkdir \/ TCreate \/ TWrite \/ TAppend \/ TTrunc \/ TRename \/ TRenDir \/ TRemove \/ TFill \/ TChurn)
+Match == Ev.panic = "" /\ (TMkdir \/ TCreate \/ TWrite \/ TAppend \/ TTrunc \/ TRename \/ TRenDir \/ TRemove \/ TFill \/ TChurn \/ THold)
 
 InRange  == l <= Len(Trace)
 Step     == InRange /\ ~skip /\ Ev.a # "Reset" /\ Match /\ l' = l + 1 /\ UNCHANGED skip
